@@ -4,6 +4,7 @@
 //! reader inputs. No files, no clocks, no rlimits: runs under Miri with isolation on.
 //! A finding here is reported by the tool itself (UB report / sanitizer report / non-zero exit).
 
+use crate::hostile::{apply_size_count, mutate_havoc, mutate_single, seed_from_ser, size_count_specs, Seed};
 use crate::muxdrive::*;
 use crate::prng::Rng;
 use crate::refenc::{self, EmsgF};
@@ -54,9 +55,64 @@ fn emsg_shapes(rng: &mut Rng) -> Vec<Vec<u8>> {
     v
 }
 
-pub fn run(seed: u64) -> i32 {
+/// Every read-side call on one input; no clocks, no allocator hooks (interpreter friendly).
+/// Returns the number of library calls made; panics are caught and counted by the caller.
+fn light_sweep(bytes: &Rc<Vec<u8>>, init: Option<&Rc<Vec<u8>>>) -> u64 {
+    let mut calls = 1u64;
+    let len = bytes.len() as u64;
+    let opened = match init {
+        None => Mp4Reader::read_header(MonReader::plain(bytes.clone()), len),
+        Some(i) => match Mp4Reader::read_header(MonReader::plain(i.clone()), i.len() as u64) {
+            Ok(base) => base.read_fragment_header(MonReader::plain(bytes.clone()), len),
+            Err(e) => Err(e),
+        },
+    };
+    if let Ok(mut mp4) = opened {
+        calls += crate::hostile::render_all(&mp4);
+        let mut ids: Vec<u32> = mp4.tracks().keys().cloned().collect();
+        ids.sort();
+        ids.push(0);
+        for t in ids {
+            let c = mp4.sample_count(t).unwrap_or(0);
+            for s in (0..=c.min(5) + 1).chain([c, c.wrapping_add(1), u32::MAX]) {
+                let _ = mp4.sample_offset(t, s);
+                let _ = mp4.read_sample(t, s);
+                calls += 2;
+            }
+        }
+    }
+    calls
+}
+
+/// Small structure-aware subjects built by the reference encoder (no file access).
+fn small_subjects(rng: &mut Rng) -> Vec<Seed> {
+    use crate::model::*;
+    let mut v = Vec::new();
+    for k in 0..3u32 {
+        let m = gen_movie(rng, 2, 4, 12);
+        let fl = gen_file_layout(rng, &m);
+        v.push(seed_from_ser(&format!("plain{}", k), build_plain(&m, &fl, &|_| {}).ser, None));
+    }
+    for k in 0..3u32 {
+        let same_trex = rng.bool();
+        let fm = gen_frag_movie(rng, 2, 2, 2, same_trex);
+        let b = build_fragmented(&fm);
+        if k == 2 {
+            let seg = crate::hostile::seed_from_bytes("segment", b.segment.clone(), Some(b.init.clone()));
+            v.push(seg);
+        } else {
+            v.push(seed_from_ser(&format!("frag{}", k), b.whole, None));
+        }
+    }
+    v
+}
+
+/// `sanit <seed> [shard nshards cases]`: shard 0 also runs the emsg shapes and the round trips.
+pub fn run(seed: u64, shard: u64, nshards: u64, cases: u64) -> i32 {
     let mut rng = Rng::new(seed);
     let mut n = 0u64;
+    let mut panics = 0u64;
+    if shard == 0 {
     // (1) emsg decoded directly and as a top-level box of a file
     let ftyp = refenc::serialize_one(&refenc::enc_ftyp(&refenc::FtypF { major: *b"isom", minor: 0, brands: vec![] }));
     for b in emsg_shapes(&mut rng) {
@@ -95,6 +151,53 @@ pub fn run(seed: u64) -> i32 {
             }
         }
     }
-    println!("sanit workload finished: {} library calls", n);
-    0
+    }
+    // (3) hostile reader inputs under the interpreter / sanitizer: field extremes, size+count
+    // pairs and havoc over small generated subjects, every accessor and sample call
+    let mut srng = Rng::new(seed ^ 0x5A17);
+    let subjects = small_subjects(&mut srng);
+    let specs: Vec<Vec<crate::hostile::SizeCountSpec>> = subjects.iter().map(size_count_specs).collect();
+    let mut k = shard;
+    let mut done = 0u64;
+    let mut shapes = std::collections::BTreeSet::new();
+    while done < cases {
+        let mut crng = Rng::derive(seed, 0x5A18, k);
+        let si = crng.usize_below(subjects.len());
+        let s = &subjects[si];
+        let (bytes, what): (Vec<u8>, &str) = match crng.below(4) {
+            0 => {
+                // an extreme of a pseudo-randomly chosen field
+                let fi = crng.usize_below(s.fields.len().max(1));
+                let vals = s.fields.get(fi).map(|f| s.values_for(f)).unwrap_or_default();
+                let vi = match crng.below(3) { 0 => 0, 1 => vals.len().saturating_sub(1), _ => crng.usize_below(vals.len().max(1)) };
+                match mutate_single(s, fi, vi) {
+                    Some((b, _)) => (b, "single"),
+                    None => (s.bytes.clone(), "unmodified"),
+                }
+            }
+            1 => {
+                let all = &specs[si];
+                if all.is_empty() { (s.bytes.clone(), "unmodified") } else { (apply_size_count(s, &all[crng.usize_below(all.len())]).0, "size+count") }
+            }
+            2 => (mutate_havoc(s, &[], &mut crng).0, "havoc"),
+            _ => {
+                let cut = crng.usize_below(s.bytes.len().max(1));
+                (s.bytes[..cut].to_vec(), "truncated")
+            }
+        };
+        let data = Rc::new(bytes);
+        let init = s.init.as_ref().map(|i| Rc::new(i.clone()));
+        match crate::panicmon::catch(|| light_sweep(&data, init.as_ref())) {
+            Ok(c) => n += c,
+            Err(p) => {
+                panics += 1;
+                println!("PANIC under sanit: case {} ({} of {}): {} {}", k, what, s.name, p.site(), p.msg);
+            }
+        }
+        shapes.insert(format!("{}:{}", s.name, what));
+        k += nshards;
+        done += 1;
+    }
+    println!("sanit workload finished: shard {}/{} {} hostile inputs ({} subject x mutation kinds), {} library calls, {} panics", shard, nshards, done, shapes.len(), n, panics);
+    if panics > 0 { 3 } else { 0 }
 }
